@@ -541,6 +541,34 @@ pub fn c05(tier: &str, seed: u64) -> Vec<Case> {
         if rule.contains("overrun") && class_of(&out) == "ok" { c = c.fail("rdata-overrun-accepted", format!("{}: an inner length that overruns the RDATA is satisfied from the bytes of the next record", rule)); }
         v.push(c);
     }
+    // pointers across the whole 14-bit range: a 16 KiB message whose first record carries opaque data with names laid down
+    // at offsets in every region (0x00C0, 0x039F, 0x0FFF, 0x1000, 0x139F, 0x2001, 0x3F00 ...), then records whose owners
+    // are pointers to them - every bit of the offset counts
+    {
+        let offsets: [usize; 12] = [0x00C0, 0x01FF, 0x039F, 0x0800, 0x0FFF - 8, 0x1000, 0x139F, 0x1FFF - 8, 0x2001, 0x2FFF, 0x339F, 0x3F00];
+        let mut b = vec![0u8, 7, 0x80, 0, 0, 0, 0, (1 + offsets.len()) as u8, 0, 0, 0, 0];
+        b.extend_from_slice(&[1, b'p', 0, 0, 10, 0, 1, 0, 0, 0, 0]);
+        let rdlen = 0x3F40usize;
+        b.extend_from_slice(&(rdlen as u16).to_be_bytes());
+        let start = b.len();
+        b.resize(start + rdlen, 0xEE);
+        for (k, o) in offsets.iter().enumerate() { let n = [1u8, b'n', 2, b'0' + (k / 10) as u8, b'0' + (k % 10) as u8, 0]; b[*o..*o + n.len()].copy_from_slice(&n); }
+        for o in offsets.iter() { b.extend_from_slice(&[0xC0 | (o >> 8) as u8, *o as u8, 0, 1, 0, 1, 0, 0, 0, 9, 0, 4, 10, 0, (o >> 8) as u8, *o as u8]); }
+        let out = parse_out(&b);
+        let mut c = Case::new(format!("parse {}", text::hex(&b)), out.clone()).tag("high-pointers").tag(&format!("outcome:{}", class_of(&out)));
+        if let Some((k, m)) = framing_oracle(&b) { c = c.fail(&k, m); }
+        match Packet::parse(&b) {
+            Ok(p) => {
+                for (k, _) in offsets.iter().enumerate() {
+                    let want = vec![vec![b'n'], vec![b'0' + (k / 10) as u8, b'0' + (k % 10) as u8]];
+                    let got: Option<Vec<Vec<u8>>> = p.answers.get(k + 1).map(|r| r.name.get_labels().iter().map(|l| l.as_bytes().to_vec()).collect());
+                    if got.as_ref() != Some(&want) { c = c.fail("record-name", format!("the owner given as a pointer to offset {:#06x} is read as {:?}", offsets[k], got)); }
+                }
+            }
+            Err(_) => { c = c.fail("reference-encoding-misread", "a well-formed 16 KiB message with pointers to offsets in every region is rejected".into()); }
+        }
+        v.push(c);
+    }
     // crowded sections: tens to thousands of small entries in one section and a few in the others - every one of them
     // reported, at its own index, in its own section (a zone transfer chunk, a large RRset, an mDNS response for a rack)
     {
@@ -673,6 +701,15 @@ pub fn c11(tier: &str, seed: u64) -> Vec<Case> {
                 }
             }
         }
+    }
+    // the forwarder's path on a service thread: a sample of the accepted inputs is parsed and written again, by both
+    // writers, in a child process on a thread with a 64 KiB stack (a serialiser that keeps a message-sized buffer on the
+    // stack, or recurses per label, is a process abort there)
+    {
+        let mut sample: Vec<Vec<u8>> = vec![];
+        for (k, (b, _)) in hostile_messages(tier, seed ^ 0x1111).into_iter().enumerate() { if k % 40 == 0 && b.len() <= 5000 { sample.push(b); } }
+        for (p, tag) in packets(tier, seed ^ 0x3333, true) { if tag == "many-names" || tag == "max-size" { if let Ok(b) = p.build_bytes_vec() { sample.push(b); } } }
+        v.extend(crate::props::c01::stack_probe_with(&sample, true));
     }
     v
 }
